@@ -15,10 +15,12 @@ package xdownsample
 
 import (
 	"context"
+	"flag"
 	"fmt"
 	"math"
 	"os"
 	"path/filepath"
+	"strconv"
 	"testing"
 
 	"github.com/go-kit/log"
@@ -233,18 +235,28 @@ func downsampleBlock(dir string, id string, res int64) (string, error) {
 
 func TestVerifC37_Blocks(t *testing.T) {
 	rec := kit.For(t, "C37")
-	budget := kit.Scale("C37_BLOCKS", 3, 12)
+	budget := kit.Scale("C37_BLOCKS", 8, 30)
+	stride := 1
+	if f := flag.Lookup("rapid.checks"); f != nil {
+		if n, err := strconv.Atoi(f.Value.String()); err == nil && n > budget {
+			stride = n / budget
+		}
+	}
+	calls := 0
 	failed := false
 	rec.Check(t, func(rt *rapid.T) {
-		// -rapid.checks applies to every property of the binary; this expensive one is bounded by
-		// its own case budget (cases beyond it return at once; shrinking after a failure is not bounded).
-		if budget <= 0 && !failed {
+		// -rapid.checks applies to every property of the binary; this expensive one (three blocks on
+		// disk per case) evaluates only every stride-th case, `budget` cases in total. Once a case has
+		// failed every call is evaluated so that shrinking and the final replay work.
+		calls++
+		if !failed && (calls%stride != 0 || budget <= 0) {
 			return
 		}
 		budget--
+		done := false
 		defer func() {
-			if rt.Failed() {
-				failed = true
+			if !done {
+				failed = true // Fatalf or a panic of the code under test
 			}
 		}()
 		dir, err := os.MkdirTemp("", "c37blk")
@@ -263,7 +275,13 @@ func TestVerifC37_Blocks(t *testing.T) {
 			raws[i] = xs
 			series = append(series, storage.NewListSeries(labels.FromStrings("__name__", "c", "i", fmt.Sprint(i)), toTSDB(xs)))
 		}
-		bdir, err := tsdb.CreateBlock(series, dir, 0, promslog.NewNopLogger())
+		// CreateBlock appends series after series through a head: the head's chunk range must exceed
+		// the span of all series or the early samples of a later series are "out of bounds".
+		lo, hi := int64(math.MaxInt64), int64(math.MinInt64)
+		for _, xs := range raws {
+			lo, hi = min(lo, xs[0].t), max(hi, xs[len(xs)-1].t)
+		}
+		bdir, err := tsdb.CreateBlock(series, dir, max(tsdb.DefaultBlockDuration, 4*(hi-lo)+4), promslog.NewNopLogger())
 		if err != nil {
 			rt.Fatalf("CreateBlock: %v", err)
 		}
@@ -315,5 +333,6 @@ func TestVerifC37_Blocks(t *testing.T) {
 				rec.Case(fmt.Sprintf("blocks L%d %s", lvl+1, renderSamples(raws[i], 12)), nt, append(cl, fmt.Sprintf("block-level-%d", lvl+1))...)
 			}
 		}
+		done = true
 	})
 }
